@@ -68,14 +68,17 @@ impl Wake for ThreadWaker {
 }
 
 /// Drive a client future from a controlled thread: poll; while pending, park until the waker fires.
-fn block_on_parked<F: std::future::Future>(fut: F) -> F::Output {
+/// Returns the output and whether the future was ready at its first poll (a synchronous answer: a memory hit).
+fn block_on_parked<F: std::future::Future>(fut: F) -> (F::Output, bool) {
     let tid = sched::current_tid().expect("controlled thread");
     let waker = Waker::from(Arc::new(ThreadWaker { tid }));
     let mut cx = Context::from_waker(&waker);
     let mut fut = Box::pin(fut);
+    let mut polls = 0;
     loop {
+        polls += 1;
         if let Poll::Ready(r) = fut.as_mut().poll(&mut cx) {
-            return r;
+            return (r, polls == 1);
         }
         sched::park();
     }
@@ -158,7 +161,11 @@ fn run_ops(env: &Arc<Env>, thread: usize, ops: &[HTOp]) {
                 });
             }
             HTOp::Get { k } => {
-                let res = World::lookup_result(block_on_parked(env.cache.get(&k)), k);
+                let fut = env.cache.get(&k);
+                // a memory hit is answered by the call itself; everything else went through the in-flight table
+                let sync = !fut.need_await();
+                let (out, _) = block_on_parked(fut);
+                let res = World::lookup_result(out, k);
                 let r = env.tick();
                 env.hist.lock().unwrap().lookups.push(LookupEv {
                     op: idx,
@@ -166,7 +173,8 @@ fn run_ops(env: &Arc<Env>, thread: usize, ops: &[HTOp]) {
                     kind: "get",
                     invoke: t,
                     resp: Some(r),
-                    answered: Some(r),
+                    // answered at invoke time = served synchronously by the memory tier (no in-flight lookup)
+                    answered: Some(if sync { t } else { r }),
                     res,
                     epoch: env.epoch,
                 });
@@ -195,7 +203,10 @@ fn run_ops(env: &Arc<Env>, thread: usize, ops: &[HTOp]) {
                     *wi2.lock().unwrap() = Some(h.writes.len() - 1);
                     Ok::<HVal, anyhow::Error>(HVal(mkval(k, ver, sz, false)))
                 };
-                let res = World::lookup_result(block_on_parked(env.cache.get_or_fetch(&k, || origin)).map(Some), k);
+                let fut = env.cache.get_or_fetch(&k, || origin);
+                let sync = !fut.need_await();
+                let (out, _) = block_on_parked(fut);
+                let res = World::lookup_result(out.map(Some), k);
                 let r = env.tick();
                 let mut h = env.hist.lock().unwrap();
                 if let Some(wi) = *wi.lock().unwrap() {
@@ -207,7 +218,7 @@ fn run_ops(env: &Arc<Env>, thread: usize, ops: &[HTOp]) {
                     kind: "gof",
                     invoke: t,
                     resp: Some(r),
-                    answered: Some(r),
+                    answered: Some(if sync { t } else { r }),
                     res,
                     epoch: env.epoch,
                 });
@@ -589,6 +600,9 @@ fn explore_job(prop: &THProp, job: &HTJob, res: &mut ShardResult, deadline: Inst
                 res.add("foreign_clause_complaints", 1);
                 continue;
             }
+            if std::env::var_os("VERIF_TH_SHOW").is_some() {
+                eprintln!("THSHOW {clause} :: {} :: {} :: {}", thread_text(job), job.cfg.name(), msg.chars().take(160).collect::<String>());
+            }
             let signature = sig(&clause, job);
             if !res.violations.iter().any(|v| v.signature == signature) {
                 res.violations.push(Violation {
@@ -604,7 +618,7 @@ fn explore_job(prop: &THProp, job: &HTJob, res: &mut ShardResult, deadline: Inst
         if stop {
             // One witness per (clause, configuration) is enough; the remaining schedules of this program are
             // still explored unless the shard already carries many different violations.
-            if res.violations.len() >= 12 {
+            if res.violations.len() >= 12 && std::env::var_os("VERIF_TH_SHOW").is_none() {
                 keep = false;
                 break;
             }
@@ -673,6 +687,7 @@ pub fn jobs_c01(tier: Tier) -> Vec<HTJob> {
         push(woe, &on_disk, vec![vec![rm], vec![get]], 1);
         push(woe, &on_disk, vec![vec![get, get], vec![rm]], 1);
         push(woe, &on_disk, vec![vec![fill, get], vec![ins]], 1);
+        push(woe, &on_disk, vec![vec![ins, fill], vec![get]], 1);
         return v;
     }
     let mut programs: Vec<Vec<Vec<HTOp>>> = vec![];
@@ -692,6 +707,7 @@ pub fn jobs_c01(tier: Tier) -> Vec<HTJob> {
     programs.push(vec![vec![get, get], vec![ins]]);
     programs.push(vec![vec![fill, get], vec![ins]]);
     programs.push(vec![vec![fill, get], vec![rm]]);
+    programs.push(vec![vec![ins, fill], vec![get]]);
     programs.push(vec![vec![ins, get], vec![rm, get]]);
     programs.push(vec![vec![ins, rm], vec![ins]]);
     programs.push(vec![vec![gof, fill], vec![ins]]);
